@@ -571,7 +571,7 @@ impl Scenario for C17Threads {
     fn has_flat(n: &Node) -> bool {
       match n {
         Node::Flat { .. } => true,
-        Node::U(_, s) => has_flat(s),
+        Node::U(_, s) | Node::Defer(s) => has_flat(s),
         Node::B(_, a, b) => has_flat(a) || has_flat(b),
         _ => false,
       }
